@@ -193,6 +193,7 @@ def check_riemann(case):
             continue
         target(e2 / e1, "riemann-ratio-2n:" + name)
         target(e4 / e1, "riemann-ratio-4n:" + name)
+        target(e4 / sc, "riemann-relerr-400:" + ("first" if name == "extrapol1" else "muscl") + ":" + which)
         if CALIB:
             continue
         require(e2 <= 1.05 * e1 and e4 <= 1.05 * e2, "riemann-monotone", "%s L1 error does not decrease under refinement: %.4g (100) %.4g (200) %.4g (400) (%s/%s/%s, gamma=%g, pattern %s, L=%r R=%r)"
